@@ -1,10 +1,10 @@
 PROP = dict(
-    level="exploration",
+    level="fault_enumeration",
     technique="fault injection by crash-point enumeration (process-kill model): rapid-generated write histories run by a child "
               "process under strace; every prefix of its file-system operations is replayed into a directory and a fresh node is "
               "started on it; oracle = sequential model of the acknowledged writes",
     level_text="Generated write histories (Set/Clear with and without timestamps, int Set, Import/ImportValue/ImportRoaring with and "
-               "without clear, Store, ClearRow; set, mutex, bool, time (with and without standard view), int and keyed fields; column and row keys incl. entries larger "
+               "without clear, bulk Import set/clear batches of 600-3000 bits and ImportValue batches of 300-900 columns in one shard, Store, ClearRow; set, mutex, bool, time (with and without standard view), int and keyed fields; column and row keys incl. entries larger "
                "than the 4 KiB translate buffer; low snapshot thresholds so that background snapshots interleave) are executed by a real "
                "in-process node in a child process under strace. The trace (every write/rename/truncate/unlink/create with its payload, "
                "and the position of each ACK) is replayed operation by operation with an inode-accurate replayer that is self-checked "
